@@ -16,6 +16,50 @@ EXPLANATION += "; also: C01's SQL-shape, identity, free-check-time and uniquenes
 EXTRA_CONFIGS = ["dhcp"]
 
 
+def _r6_named_address_in_use_falls_back(ctx):
+    """R6 a refusal for lack of addresses is the last resort: when the address a client names is held by someone else, the allocator goes
+    on to pick another one — from the Err edge of `select_requested_address` the call of `select_new_address` is still reachable (the
+    arm that swallows RequestedAddressInUse)."""
+    P = ctx.P
+    n = 0
+    for b in P.bodies.values():
+        if not b.id.endswith("dhcp::pool::Pool::select_address"):
+            continue
+        T = terms(P, b)
+        cfg = cfg_of(b)
+        news = {bb for bb, tm in b.calls() if (callee_name(tm) or "").endswith("Pool::select_new_address")}
+        for sb, t2 in b.terms():
+            if t2["k"] != "switch":
+                continue
+            d = norm(T.at_term(t2["discr"], sb))
+            if d[0] == "discr" and norm(d[1])[0] == "call" and str(norm(d[1])[1]).endswith("Pool::select_requested_address"):
+                n += 1
+                ctx.saw(b)
+                errs = discr_edges(cfg, sb, 1)
+                okk = bool(news) and bool(errs) and all(cfg.reachable_from(tgt) & news for _, tgt in errs)
+                # ... for both reasons it can fail: the switch on the error's variant sends RequestedAddressInUse (and
+                # NoAssignableAddress) on to the new-address step
+                eadt = P.adt("erbium::dhcp::pool::Error")
+                if okk and eadt:
+                    names = [v["name"] for v in eadt["variants"]]
+                    found = False
+                    for sb2, t3 in b.terms():
+                        if t3["k"] != "switch" or not any(sb2 in cfg.reachable_from(tgt) for _, tgt in errs):
+                            continue
+                        d2 = norm(T.at_term(t3["discr"], sb2))
+                        if d2[0] == "discr" and any(y[0] == "call" and str(y[1]).endswith("Pool::select_requested_address") for y in subterms(norm(d2[1]))) and norm(d2[1])[0] != "call":
+                            found = True
+                            for vn in ("RequestedAddressInUse", "NoAssignableAddress"):
+                                if vn in names:
+                                    es = discr_edges(cfg, sb2, names.index(vn))
+                                    okk = okk and bool(es) and all(cfg.reachable_from(tgt) & news for _, tgt in es)
+                    okk = okk and found
+                ctx.check(okk, "R6", "named-address-in-use-falls-back-to-a-new-one", ctx.where(b),
+                          "when the named address cannot be had the allocator must still try select_new_address")
+    if ctx.config in ("default", "dhcp"):
+        ctx.floor("R6", "tests of the named-address result", n, 1)
+
+
 def run(ctx):
     P = ctx.P
     cg = callgraph(P)
@@ -23,6 +67,7 @@ def run(ctx):
     # shared clauses: a client's other rows survive a write (no second uniqueness constraint); every statement is understood
     ctx.include("C01", rules=("R0", "R1", "R2", "R7", "R6", "R3"))
     ctx.include("C13", rules=("R6",))      # the address acknowledged is the address recorded
+    _r6_named_address_in_use_falls_back(ctx)
     ctx.include("C18", rules=("R7",))      # the pool remembers nothing but the rows: no memo of "this pool is exhausted"
     ctx.include("C13", rules=("R5",))      # ... and it is acknowledged: once the pool has chosen (the holder's own address), no refusal
     producers = {fid for fid, sig in P.sigs.items() if _is_lease_result(sig_output(sig)) and fid in P.bodies}
